@@ -61,6 +61,9 @@ func init() {
 		defer c01ScratchCleanup()
 		cross := c01UnitScope(ctx, res)
 		if res.Broken == "" {
+			cross = append(cross, c01UnitDefineAll(ctx, res)...)
+		}
+		if res.Broken == "" {
 			cross = append(cross, c01UnitResolve(ctx, res)...)
 		}
 		if res.Broken == "" {
